@@ -300,6 +300,10 @@ func RunC17(d *Driver) *Report {
 	for _, src := range c17Fixed() {
 		checkProg(src, "bytecode-fixed")
 	}
+	// literals of different types with one printed form: a constant is loaded with the type it was written with
+	for _, src := range c16LiteralPrograms() {
+		checkProg(src, "bytecode-literals")
+	}
 	r.DriverCalls = d.N
 	return r
 }
